@@ -116,10 +116,17 @@ static void gen_addr(Node *node) {
       return;
     }
 
-    // Thread-local variable
+    // Thread-local variable. If it is not defined in this translation
+    // unit, it may belong to a shared object, so that its offset from
+    // the thread pointer is known only at load-time (initial-exec).
     if (node->var->is_tls) {
-      println("  mov %%fs:0, %%rax");
-      println("  add $%s@tpoff, %%rax", node->var->name);
+      if (node->var->is_definition) {
+        println("  mov %%fs:0, %%rax");
+        println("  add $%s@tpoff, %%rax", node->var->name);
+      } else {
+        println("  mov %s@gottpoff(%%rip), %%rax", node->var->name);
+        println("  add %%fs:0, %%rax");
+      }
       return;
     }
 
